@@ -151,6 +151,29 @@ func c11Variants() []c11Variant {
 		vs = append(vs, c11Variant{"stdout_digest-" + b.n, false, func(ar *pb.ActionResult) { b.f(ar.StdoutDigest) }})
 		vs = append(vs, c11Variant{"stderr_digest-" + b.n, false, func(ar *pb.ActionResult) { b.f(ar.StderrDigest) }})
 	}
+	// stdout / stderr given inline AND by digest: the digest must be well formed all the same
+	vs = append(vs,
+		c11Variant{"valid-stdout_raw+matching-digest", true, func(ar *pb.ActionResult) {
+			ar.StdoutRaw = []byte("inline stdout bytes")
+			ar.StdoutDigest = &pb.Digest{Hash: vlib.Sha(ar.StdoutRaw), SizeBytes: int64(len(ar.StdoutRaw))}
+		}},
+		c11Variant{"valid-stderr_raw+matching-digest", true, func(ar *pb.ActionResult) {
+			ar.StderrRaw = []byte("inline stderr bytes")
+			ar.StderrDigest = &pb.Digest{Hash: vlib.Sha(ar.StderrRaw), SizeBytes: int64(len(ar.StderrRaw))}
+		}})
+	for _, b := range badDigests {
+		b := b
+		vs = append(vs, c11Variant{"stdout_raw+stdout_digest-" + b.n, false, func(ar *pb.ActionResult) {
+			ar.StdoutRaw = []byte("inline stdout bytes")
+			ar.StdoutDigest = &pb.Digest{Hash: vlib.Sha(ar.StdoutRaw), SizeBytes: int64(len(ar.StdoutRaw))}
+			b.f(ar.StdoutDigest)
+		}})
+		vs = append(vs, c11Variant{"stderr_raw+stderr_digest-" + b.n, false, func(ar *pb.ActionResult) {
+			ar.StderrRaw = []byte("inline stderr bytes")
+			ar.StderrDigest = &pb.Digest{Hash: vlib.Sha(ar.StderrRaw), SizeBytes: int64(len(ar.StderrRaw))}
+			b.f(ar.StderrDigest)
+		}})
+	}
 	for _, fld := range []string{"output_file_symlinks", "output_symlinks", "output_directory_symlinks"} {
 		fld := fld
 		get := func(ar *pb.ActionResult) *pb.OutputSymlink {
@@ -309,6 +332,14 @@ func c11Norm(uploaded, got *pb.ActionResult) (*pb.ActionResult, *pb.ActionResult
 		if g.ExecutionMetadata == nil {
 			g.ExecutionMetadata = &pb.ExecutedActionMetadata{}
 		}
+	}
+	// de-inlining: a stream that was uploaded inline WITH its digest may come back as the digest
+	// alone (the bytes then have to be in the CAS - checked by the inline cells)
+	if len(u.StdoutRaw) > 0 && len(g.StdoutRaw) == 0 && proto.Equal(u.StdoutDigest, g.StdoutDigest) && u.StdoutDigest != nil {
+		u.StdoutRaw = nil
+	}
+	if len(u.StderrRaw) > 0 && len(g.StderrRaw) == 0 && proto.Equal(u.StderrDigest, g.StderrDigest) && u.StderrDigest != nil {
+		u.StderrRaw = nil
 	}
 	return u, g
 }
